@@ -40,7 +40,7 @@ def passed_tests(junit):
 def main():
     prop, src, sid = sys.argv[1], sys.argv[2], sys.argv[3]
     no_suite = "--no-suite" in sys.argv
-    extra_checks = [a.split("=", 1)[1] for a in sys.argv if a.startswith("--also=")]
+    extra_checks = [x for a in sys.argv if a.startswith("--also=") for x in a.split("=", 1)[1].split(",") if x]
     wt = tempfile.mkdtemp(prefix="cs_", dir="/tmp")
     os.rmdir(wt)
     meta = {"property": prop, "seed_id": sid, "ran": []}
